@@ -234,5 +234,105 @@ Qed.
 Lemma run_case_refines k cap r : 0 <= k <= 3 -> 0 <= cap -> run_case (k :: cap :: r) = arun_case (k :: cap :: r).
 Proof.
   intros Hk Hc. unfold run_case, arun_case. destruct (take r) as [ini r'].
-  apply run_refines; auto. apply decode_ops_ok.
+  apply run_x_refines; auto. apply decode_xops_ok.
+Qed.
+
+(* ---- appends whose source is the builder's own text ---- *)
+Definition reach_x (k cap : Z) (ini : list Z) (xs : list xop) : st := snd (run_xops (init k cap ini) xs).
+
+(* histories with self-appends reach nothing new: the same records and the same final state as the history of
+   plain operations in which every self-append is written out as the append of the slice *)
+Lemma self_histories k cap ini xs : Forall ok_xop xs ->
+  exists ops, Forall ok_op ops /\ run_x k cap ini xs = run k cap ini ops /\ reach_x k cap ini xs = reach k cap ini ops.
+Proof.
+  intros Hok. destruct (xops_flatten xs (init k cap ini) Hok) as (ops & Hops & E).
+  exists ops. split; [exact Hops|]. unfold run_x, run, reach_x, reach. rewrite E. split; reflexivity.
+Qed.
+
+Lemma len_slice t off n : 0 <= off -> 0 <= n -> off + n <= len t -> len (slice t off n) = n.
+Proof.
+  intros H1 H2 H3. unfold slice, suffix, zfirstn, zskipn, len in *.
+  rewrite firstn_length, skipn_length. lia.
+Qed.
+
+Lemma limit_alimit k cap ini ops : alimit (areach k cap ini ops) = limit_of cap.
+Proof.
+  destruct (areach_kind ops (ainit k cap ini)) as [_ Hcap]. fold (areach k cap ini ops) in Hcap.
+  unfold alimit, limit_of. rewrite Hcap. reflexivity.
+Qed.
+
+(* what an append-like step does to a reachable state depends on its piece only *)
+Lemma append_by_piece k cap ini ops o : 0 <= k <= 3 -> 0 <= cap -> Forall ok_op ops -> ok_op o -> is_append o = true ->
+  let s := reach k cap ini ops in
+  let s' := snd (step s o) in
+  let room := limit_of cap - c_size s in
+  fst (step s o) = 0 /\ fault s' = false /\
+  c_text s' = c_text s ++ (if k =? 2 then zfirstn room (piece o) else piece o) /\
+  (erange s' = true <-> k = 2 /\ room < len (piece o)) /\
+  (k = 2 -> 0 <= room /\ c_size s' <= limit_of cap).
+Proof.
+  intros Hk Hc Hok Ho Happ s s' room.
+  destruct (step_append k cap ini ops o Hk Hc Hok Ho Happ) as (S1 & S2 & S3 & S4 & S5 & _).
+  rewrite (limit_alimit k cap ini ops) in S3, S4, S5. fold s in S1, S2, S3, S4, S5. fold s' in S2, S3, S4, S5. fold room in S3, S4, S5.
+  repeat split; try assumption.
+  - rewrite S4 in H. apply andb_true_iff in H. destruct H as [H _]. apply Z.eqb_eq in H. exact H.
+  - rewrite S4 in H. apply andb_true_iff in H. destruct H as [_ H]. apply Z.ltb_lt in H. exact H.
+  - intros [H1 H2]. rewrite S4. apply andb_true_iff. split; [apply Z.eqb_eq; exact H1 | apply Z.ltb_lt; exact H2].
+  - apply S5; assumption.
+  - apply S5; assumption.
+Qed.
+
+Definition self_piece (s : st) (x : xop) : list Z :=
+  match x with
+  | XOp o => piece o
+  | XSelf off n => slice (c_text s) off n
+  | XSelfC off => cut0 (suffix (c_text s) off)
+  end.
+
+Lemma self_append k cap ini ops x : 0 <= k <= 3 -> 0 <= cap -> Forall ok_op ops ->
+  match x with XOp _ => False | _ => True end ->
+  let s := reach k cap ini ops in
+  let d := self_piece s x in
+  let s' := snd (step s (resolve s x)) in
+  let room := limit_of cap - c_size s in
+  fst (step s (resolve s x)) = 0 /\ fault s' = false /\
+  c_text s' = c_text s ++ (if k =? 2 then zfirstn room d else d) /\
+  (erange s' = true <-> k = 2 /\ room < len d) /\
+  (k = 2 -> 0 <= room /\ c_size s' <= limit_of cap) /\
+  (k <> 2 -> max_size s' = -1) /\
+  (forall o, ok_op o -> is_append o = true -> piece o = d ->
+     let t := snd (step s o) in
+     fst (step s o) = 0 /\ c_text t = c_text s' /\ c_size t = c_size s' /\ erange t = erange s' /\ fault t = false).
+Proof.
+  intros Hk Hc Hok Hx s d s' room.
+  assert (Hp : piece (resolve s x) = d /\ ok_op (resolve s x) /\ is_append (resolve s x) = true).
+  { destruct x as [o|off n|off]; [contradiction | |]; cbn; auto. }
+  destruct Hp as (Hp & Ho & Happ).
+  destruct (append_by_piece k cap ini ops (resolve s x) Hk Hc Hok Ho Happ) as (A1 & A2 & A3 & A4 & A5).
+  fold s in A1, A2, A3, A4, A5. fold s' in A2, A3, A4, A5. fold room in A3, A4, A5. rewrite Hp in A3, A4.
+  split; [exact A1|]. split; [exact A2|]. split; [exact A3|]. split; [exact A4|]. split; [exact A5|]. split.
+  - intros Hk2.
+    destruct (unbounded_step k cap ini ops (resolve s x) ltac:(lia) Hc Hok Ho Happ) as (_ & _ & _ & _ & M). exact M.
+  - intros o Ho' Happ' Hpo t.
+    destruct (append_by_piece k cap ini ops o Hk Hc Hok Ho' Happ') as (B1 & B2 & B3 & B4 & B5).
+    fold s in B1, B2, B3, B4, B5. fold t in B2, B3, B4, B5. fold room in B3, B4, B5. rewrite Hpo in B3, B4.
+    assert (Hsz : forall u, Forall ok_op (ops ++ [u]) -> c_size (snd (step s u)) = len (c_text (snd (step s u)))).
+    { intros u Hu.
+      assert (Hrun : forall ops1 s0, snd (run_ops s0 (ops1 ++ [u])) = snd (step (snd (run_ops s0 ops1)) u)).
+      { induction ops1 as [|y r IH]; intros s0.
+        - cbn [app run_ops snd]. destruct (step s0 u) as [e s1]. reflexivity.
+        - cbn [app run_ops]. destruct (step s0 y) as [e s1]. specialize (IH s1).
+          destruct (run_ops s1 (r ++ [u])) as [o1 s2]. destruct (run_ops s1 r) as [o2 s3]. cbn [snd] in *. exact IH. }
+      destruct (reported k cap ini (ops ++ [u]) Hk Hc Hu) as (_ & V2 & V3 & _).
+      unfold reach in V2, V3. rewrite Hrun in V2, V3. fold (reach k cap ini ops) in V2, V3. fold s in V2, V3.
+      rewrite V3, V2. reflexivity. }
+    split; [exact B1|]. split; [rewrite B3, A3; reflexivity|]. split.
+    + change (c_size (snd (step s o)) = c_size (snd (step s (resolve s x)))).
+      rewrite (Hsz o), (Hsz (resolve s x));
+        [ fold t; fold s'; rewrite B3, A3; reflexivity | |];
+        apply Forall_app; split; try exact Hok; constructor; try constructor; assumption.
+    + split; [|exact B2].
+      destruct (erange t) eqn:E1, (erange s') eqn:E2; try reflexivity.
+      * pose proof (proj2 A4 (proj1 B4 eq_refl)). discriminate.
+      * pose proof (proj2 B4 (proj1 A4 eq_refl)). discriminate.
 Qed.
